@@ -39,7 +39,8 @@ type nopLog struct{ logger.Logger }
 func (nopLog) Infof(string, ...any) {}
 
 // A file of a write: its name and the length of its body. The body is a pure
-// function of (tag of the write, name, length), see body().
+// function of (tag of the write, name, length), see body(). Len -1: the map
+// value handed to Write is a nil []byte (an empty file like Len 0, but nil).
 type fent struct {
 	Name string
 	Len  int
@@ -51,6 +52,10 @@ type wset []fent
 func (w wset) String() string {
 	var p []string
 	for _, f := range w {
+		if f.Len < 0 {
+			p = append(p, f.Name+":nil")
+			continue
+		}
 		p = append(p, fmt.Sprintf("%s:%d", f.Name, f.Len))
 	}
 	return "{" + strings.Join(p, ",") + "}"
@@ -59,6 +64,9 @@ func (w wset) String() string {
 // body returns the first n bytes of "<tag>/<name>|" repeated: contents carry
 // the identity of the write, so a mixed set is visible in the contents too.
 func body(tag, name string, n int) []byte {
+	if n < 0 {
+		return nil // a nil map value: Write must still create the (empty) file
+	}
 	unit := tag + "/" + name + "|"
 	out := make([]byte, n)
 	for i := range out {
